@@ -590,10 +590,301 @@ theorem inv_frame {seen cx ρ1 ρ2 ρ1' ρ2'} (h : Inv seen cx ρ1 ρ2)
     have e2 : k.2.2.eval ρ2' = k.2.2.eval ρ2 := eval_agree _ _ _ (fun x hx => f2 x (hs.2.1 x hx))
     rw [e1, e2, f2 n hs.2.2]; exact h.availVal k n hk
 
+def wfFa : List Nat → List Nat → Bool
+  | [], _ => true
+  | x :: r, seen => !seen.contains x && wfFa r (x :: seen)
+
+def seenFa : List Nat → List Nat → List Nat
+  | [], seen => seen
+  | x :: r, seen => seenFa r (x :: seen)
+
 def wfL : List LStmt → List Nat → Bool
   | [], _ => true
   | .s st :: r, seen => wfSimple [st] seen && wfL r (seenAfter [st] seen)
   | .sif c _ body :: r, seen => c.vars.all seen.contains && wfSimple body seen && wfL r seen
+  | .ife c s1 s2 fas :: r, seen =>
+    c.vars.all seen.contains && wfSimple s1 seen && wfSimple s2 seen
+      && fas.all (fun fa => fa.2.1.vars.all (seenAfter s1 seen).contains && fa.2.2.vars.all (seenAfter s2 seen).contains)
+      && wfFa (fas.map (·.1)) seen && wfL r (seenFa (fas.map (·.1)) seen)
+
+/-- binding a fresh name to the same value on both sides keeps the contexts valid -/
+theorem inv_update_same {seen cx ρ1 ρ2} (h : Inv seen cx ρ1 ρ2) (x : Nat) (v : Int) (hx : x ∉ seen) :
+    Inv (x :: seen) cx (update ρ1 x v) (update ρ2 x v) := by
+  have hfresh := rn_fresh h x hx
+  constructor
+  · intro w hw
+    simp only [List.mem_cons] at hw
+    rcases hw with rfl | hw
+    · simp [rn, hfresh, update]
+    · have hwx : w ≠ x := fun e => hx (e ▸ hw)
+      have hr : rn cx.ren w ≠ x := fun e => hx (e ▸ rn_seen h w hw)
+      simp only [update, hwx, hr, if_false]
+      exact h.rel w hw
+  · intro y z hyz
+    have := h.renSeen y z hyz
+    exact ⟨List.mem_cons_of_mem _ this.1, List.mem_cons_of_mem _ this.2⟩
+  · intro k n hk
+    have := h.availSeen k n hk
+    exact ⟨fun w hw => List.mem_cons_of_mem _ (this.1 w hw), fun w hw => List.mem_cons_of_mem _ (this.2.1 w hw),
+           List.mem_cons_of_mem _ this.2.2⟩
+  · intro k n hk
+    have hs := h.availSeen k n hk
+    have h1 : x ∉ k.2.1.vars := fun e => hx (hs.1 x e)
+    have h2 : x ∉ k.2.2.vars := fun e => hx (hs.2.1 x e)
+    have h3 : n ≠ x := fun e => hx (e ▸ hs.2.2)
+    simp only [eval_update_of_not_mem _ _ _ _ h1, eval_update_of_not_mem _ _ _ _ h2, update, h3, if_false]
+    exact h.availVal k n hk
+
+theorem assign_inv {cx} (l : List (Nat × Int)) (seen : List Nat) (ρ1 ρ2 : Nat → Int)
+    (h : Inv seen cx ρ1 ρ2) (hw : wfFa (l.map (·.1)) seen = true) :
+    Inv (seenFa (l.map (·.1)) seen) cx (assignAll ρ1 l) (assignAll ρ2 l) := by
+  induction l generalizing seen ρ1 ρ2 with
+  | nil => exact h
+  | cons p r ih =>
+    obtain ⟨x, v⟩ := p
+    simp only [List.map_cons, wfFa, Bool.and_eq_true, Bool.not_eq_true'] at hw
+    have hx : x ∉ seen := by simpa using hw.1
+    simp only [List.map_cons, seenFa, assignAll]
+    exact ih (x :: seen) _ _ (inv_update_same h x v hx) hw.2
+
+theorem lvn_branch {seen cx ρ1 ρ2} (h : Inv seen cx ρ1 ρ2) (body : List Simple)
+    (hb : wfSimple body seen = true) (fas : List (Nat × Operand × Operand))
+    (sel : Operand × Operand → Operand)
+    (hfa : ∀ fa, fa ∈ fas → ∀ v, v ∈ (sel fa.2).vars → v ∈ seenAfter body seen)
+    (hw : wfFa (fas.map (·.1)) seen = true) :
+    (execSimple body ρ1).1 = (execSimple (lvnSimple body cx).1 ρ2).1 ∧
+    (match (execSimple body ρ1).2, (execSimple (lvnSimple body cx).1 ρ2).2 with
+     | .trap, .trap => True
+     | .brk v, .brk w => v = w
+     | .next ρ1', .next ρ2' =>
+        Inv (seenFa (fas.map (·.1)) seen) cx
+          (assignAll ρ1' (fas.map fun fa => (fa.1, (sel fa.2).eval ρ1')))
+          (assignAll ρ2' (fas.map fun fa => (fa.1, (rnO (lvnSimple body cx).2.ren (sel fa.2)).eval ρ2')))
+     | _, _ => False) := by
+  have hs := lvnSimple_preserves body seen cx ρ1 ρ2 hb h
+  refine ⟨hs.1, ?_⟩
+  have hs2 := hs.2
+  cases hr1 : execSimple body ρ1 with
+  | mk t1 res1 =>
+    cases hr2 : execSimple (lvnSimple body cx).1 ρ2 with
+    | mk t2 res2 =>
+      rw [hr1, hr2] at hs2
+      cases res1 <;> cases res2 <;> simp only [ResRel] at hs2 ⊢
+      all_goals first | trivial | exact hs2.elim | exact hs2 | skip
+      rename_i ρ1' ρ2'
+      have f1 : ∀ v, v ∈ seen → ρ1' v = ρ1 v := fun v hv =>
+        execSimple_frame body ρ1 ρ1' (by rw [hr1]) v (fun hd => defs_not_seen body seen hb v hd hv)
+      have f2 : ∀ v, v ∈ seen → ρ2' v = ρ2 v := fun v hv =>
+        execSimple_frame _ ρ2 ρ2' (by rw [hr2]) v
+          (fun hd => defs_not_seen body seen hb v (defs_lvnSimple body cx v hd) hv)
+      have hout := inv_frame h f1 f2
+      have hvals : (fas.map fun fa => (fa.1, (rnO (lvnSimple body cx).2.ren (sel fa.2)).eval ρ2'))
+          = (fas.map fun fa => (fa.1, (sel fa.2).eval ρ1')) := by
+        apply List.map_congr_left
+        intro fa hfa'
+        rw [rnO_eval hs2 (sel fa.2) (hfa fa hfa')]
+      rw [hvals]
+      have := assign_inv (fas.map fun fa => (fa.1, (sel fa.2).eval ρ1')) seen ρ1' ρ2' hout
+        (by simpa [List.map_map, Function.comp_def] using hw)
+      simpa [List.map_map, Function.comp_def] using this
+
+def seenAfterL : List LStmt → List Nat → List Nat
+  | [], seen => seen
+  | .s st :: r, seen => seenAfterL r (seenAfter [st] seen)
+  | .sif _ _ _ :: r, seen => seenAfterL r seen
+  | .ife _ _ _ fas :: r, seen => seenAfterL r (seenFa (fas.map (·.1)) seen)
+
+/-- the contexts at the end of a block: only top-level statements thread them -/
+def lvnCx : List LStmt → Cx → Cx
+  | [], cx => cx
+  | .s st :: r, cx => lvnCx r (lvn1 st cx).2
+  | _ :: r, cx => lvnCx r cx
+
+theorem lvnLc_eq (p : List LStmt) (cx : Cx) : lvnLc p cx = (lvnL p cx, lvnCx p cx) := by
+  induction p generalizing cx with
+  | nil => rfl
+  | cons st r ih =>
+    cases st with
+    | s st =>
+      simp only [lvnLc, lvnL, lvnCx]
+      cases h : lvn1 st cx with
+      | mk o cx1 => cases o <;> simp [ih]
+    | sif c inv body => simp [lvnLc, lvnL, lvnCx, ih]
+    | ife c s1 s2 fas => simp [lvnLc, lvnL, lvnCx, ih]
+
+def defsL : List LStmt → List Nat
+  | [] => []
+  | .s st :: r => defsSimple [st] ++ defsL r
+  | .sif _ _ body :: r => defsSimple body ++ defsL r
+  | .ife _ s1 s2 fas :: r => defsSimple s1 ++ defsSimple s2 ++ fas.map (·.1) ++ defsL r
+
+theorem assignAll_frame (l : List (Nat × Int)) (ρ : Nat → Int) (v : Nat) (h : v ∉ l.map (·.1)) :
+    assignAll ρ l v = ρ v := by
+  induction l generalizing ρ with
+  | nil => rfl
+  | cons p r ih =>
+    obtain ⟨x, w⟩ := p
+    simp only [List.map_cons, List.mem_cons, not_or] at h
+    simp only [assignAll]
+    rw [ih _ h.2]; simp [update, h.1]
+
+theorem execL_frame (p : List LStmt) (ρ ρ' : Nat → Int) (h : (execL p ρ).2 = .next ρ') :
+    ∀ v, v ∉ defsL p → ρ' v = ρ v := by
+  induction p generalizing ρ with
+  | nil => intro v _; simp only [execL] at h; injection h with h; rw [h]
+  | cons st r ih =>
+    intro v hv
+    cases st with
+    | s st =>
+      simp only [defsL, List.mem_append, not_or] at hv
+      simp only [execL] at h
+      cases hr : execSimple [st] ρ with
+      | mk t res =>
+        rw [hr] at h
+        cases res with
+        | trap => simp at h
+        | brk w => simp at h
+        | next ρ1 =>
+          simp only at h
+          rw [ih ρ1 h v hv.2]
+          exact execSimple_frame [st] ρ ρ1 (by rw [hr]) v hv.1
+    | sif c inv body =>
+      simp only [defsL, List.mem_append, not_or] at hv
+      simp only [execL] at h
+      split at h
+      · cases hr : execSimple body ρ with
+        | mk t res =>
+          rw [hr] at h
+          cases res with
+          | trap => simp at h
+          | brk w => simp at h
+          | next ρ1 =>
+            simp only at h
+            rw [ih ρ1 h v hv.2]
+            exact execSimple_frame body ρ ρ1 (by rw [hr]) v hv.1
+      · exact ih ρ h v hv.2
+    | ife c s1 s2 fas =>
+      simp only [defsL, List.mem_append, not_or] at hv
+      obtain ⟨⟨⟨h1, h2⟩, h3⟩, h4⟩ := hv
+      simp only [execL] at h
+      split at h
+      · cases hr : execSimple s1 ρ with
+        | mk t res =>
+          rw [hr] at h
+          cases res with
+          | trap => simp at h
+          | brk w => simp at h
+          | next ρ1 =>
+            simp only at h
+            rw [ih _ h v h4, assignAll_frame _ _ _ (by simpa [List.map_map, Function.comp_def] using h3)]
+            exact execSimple_frame s1 ρ ρ1 (by rw [hr]) v h1
+      · cases hr : execSimple s2 ρ with
+        | mk t res =>
+          rw [hr] at h
+          cases res with
+          | trap => simp at h
+          | brk w => simp at h
+          | next ρ1 =>
+            simp only at h
+            rw [ih _ h v h4, assignAll_frame _ _ _ (by simpa [List.map_map, Function.comp_def] using h3)]
+            exact execSimple_frame s2 ρ ρ1 (by rw [hr]) v h2
+
+theorem mem_seenFa (l seen : List Nat) (v : Nat) : v ∈ seenFa l seen ↔ v ∈ l ∨ v ∈ seen := by
+  induction l generalizing seen with
+  | nil => simp [seenFa]
+  | cons x r ih => simp only [seenFa, ih, List.mem_cons]; grind
+
+theorem mem_seenAfter (p : List Simple) (seen : List Nat) (v : Nat) : v ∈ seenAfter p seen ↔ v ∈ defsSimple p ∨ v ∈ seen := by
+  induction p generalizing seen with
+  | nil => simp [seenAfter, defsSimple]
+  | cons st r ih =>
+    cases st with
+    | bin x op a b => simp only [seenAfter, defsSimple, ih, List.mem_cons]; grind
+    | print a => simp only [seenAfter, defsSimple, ih]
+    | brk a => simp only [seenAfter, defsSimple, ih]
+
+theorem wfFa_not_seen (l seen : List Nat) (h : wfFa l seen = true) : ∀ v, v ∈ l → v ∉ seen := by
+  induction l generalizing seen with
+  | nil => intro v hv; simp at hv
+  | cons x r ih =>
+    simp only [wfFa, Bool.and_eq_true, Bool.not_eq_true'] at h
+    intro v hv
+    simp only [List.mem_cons] at hv
+    rcases hv with rfl | hv
+    · simpa using h.1
+    · intro hs; exact ih (x :: seen) h.2 v hv (List.mem_cons_of_mem _ hs)
+
+theorem defsL_not_seen (p : List LStmt) (seen : List Nat) (h : wfL p seen = true) :
+    ∀ v, v ∈ defsL p → v ∉ seen := by
+  induction p generalizing seen with
+  | nil => intro v hv; simp [defsL] at hv
+  | cons st r ih =>
+    intro v hv
+    cases st with
+    | s st =>
+      simp only [wfL, Bool.and_eq_true] at h
+      simp only [defsL, List.mem_append] at hv
+      rcases hv with hv | hv
+      · exact defs_not_seen [st] seen h.1 v hv
+      · intro hs
+        exact ih _ h.2 v hv ((mem_seenAfter [st] seen v).mpr (Or.inr hs))
+    | sif c inv body =>
+      simp only [wfL, Bool.and_eq_true] at h
+      simp only [defsL, List.mem_append] at hv
+      rcases hv with hv | hv
+      · exact defs_not_seen body seen h.1.2 v hv
+      · exact ih _ h.2 v hv
+    | ife c s1 s2 fas =>
+      simp only [wfL, Bool.and_eq_true] at h
+      obtain ⟨⟨⟨⟨⟨hc, hb1⟩, hb2⟩, hfas⟩, hwfa⟩, hr⟩ := h
+      simp only [defsL, List.mem_append] at hv
+      rcases hv with ((hv | hv) | hv) | hv
+      · exact defs_not_seen s1 seen hb1 v hv
+      · exact defs_not_seen s2 seen hb2 v hv
+      · exact wfFa_not_seen _ seen hwfa v hv
+      · intro hs
+        exact ih _ hr v hv ((mem_seenFa _ seen v).mpr (Or.inr hs))
+
+theorem defs_lvn1 (st : Simple) (cx : Cx) :
+    ∀ v, v ∈ defsSimple (match (lvn1 st cx).1 with | some st' => [st'] | none => []) → v ∈ defsSimple [st] := by
+  intro v h
+  have := defs_lvnSimple [st] cx v
+  simp only [lvnSimple] at this
+  apply this
+  cases ho : (lvn1 st cx).1 <;> simp only [ho] at h ⊢ <;> exact h
+
+theorem defsL_lvnL (p : List LStmt) (cx : Cx) : ∀ v, v ∈ defsL (lvnL p cx) → v ∈ defsL p := by
+  induction p generalizing cx with
+  | nil => intro v h; simp [lvnL, defsL] at h
+  | cons st r ih =>
+    intro v h
+    cases st with
+    | s st =>
+      simp only [lvnL] at h
+      cases ho : lvn1 st cx with
+      | mk o cx1 =>
+        rw [ho] at h
+        simp only [defsL, List.mem_append]
+        cases o with
+        | none => exact Or.inr (ih _ v h)
+        | some st' =>
+          simp only [defsL, List.mem_append] at h
+          rcases h with h | h
+          · refine Or.inl (defs_lvn1 st cx v ?_)
+            rw [ho]; exact h
+          · exact Or.inr (ih _ v h)
+    | sif c inv body =>
+      simp only [lvnL, defsL, List.mem_append] at h ⊢
+      rcases h with h | h
+      · exact Or.inl (defs_lvnSimple body cx v h)
+      · exact Or.inr (ih _ v h)
+    | ife c s1 s2 fas =>
+      simp only [lvnL, defsL, List.mem_append, List.map_map, Function.comp_def] at h ⊢
+      rcases h with ((h | h) | h) | h
+      · exact Or.inl (Or.inl (Or.inl (defs_lvnSimple s1 cx v h)))
+      · exact Or.inl (Or.inl (Or.inr (defs_lvnSimple s2 cx v h)))
+      · exact Or.inl (Or.inr h)
+      · exact Or.inr (ih _ v h)
 
 theorem keysOf_noDiv (p : List Simple) : ∀ k, k ∈ keysOf p → k.1 ≠ .div ∧ k.1 ≠ .mod := by
   induction p with
@@ -623,5 +914,197 @@ theorem cseHoisted_total (ks : List Key) (hk : ∀ k, k ∈ ks → k.1 ≠ .div 
     obtain ⟨v, hv⟩ := evalTarget_total_of_not_div op (a.eval ρ) (b.eval ρ) h.1 h.2
     simp only [cseHoisted, execSimple, hv]
     exact ih (fun k hk' => hk k (List.mem_cons_of_mem _ hk')) _ _
+
+def keys (cx : ICx) : List Nat := cx.map (·.1)
+
+theorem lookup_some_of_key (cx : ICx) (n : Nat) (h : n ∈ keys cx) : ∃ e, cx.lookup n = some e := by
+  induction cx with
+  | nil => simp [keys] at h
+  | cons p r ih =>
+    obtain ⟨k, e⟩ := p
+    simp only [keys, List.map_cons, List.mem_cons] at h
+    by_cases hk : n = k
+    · subst hk; exact ⟨e, by simp [List.lookup]⟩
+    · have hb : (n == k) = false := by simpa using hk
+      rcases h with h | h
+      · exact absurd h hk
+      · obtain ⟨e', he'⟩ := ih h
+        exact ⟨e', by simp [List.lookup, hb, he']⟩
+
+/-- the callee's environment `σ` is represented in the caller's environment `ρ'` through `cx` -/
+structure IInv (mg : Nat → Nat) (S : List Nat) (cx : ICx) (σ ρ' ρ : Nat → Int) : Prop where
+  rep : ∀ n e, cx.lookup n = some e → σ n = e.eval ρ' ∧ (∀ v, v ∈ e.vars → v ∈ S ∨ ∃ y, y ∈ keys cx ∧ v = mg y)
+  frame : ∀ v, v ∈ S → ρ' v = ρ v
+
+theorem irw_eval {mg S cx σ ρ' ρ} (h : IInv mg S cx σ ρ' ρ) (a : Operand) (ha : ∀ v, v ∈ a.vars → v ∈ keys cx) :
+    (irw cx a).eval ρ' = a.eval σ := by
+  cases a with
+  | lit n => rfl
+  | var x =>
+    obtain ⟨e, he⟩ := lookup_some_of_key cx x (ha x (by simp [Operand.vars]))
+    simp only [irw, he, Option.getD, Operand.eval]
+    exact ((h.rep x e he).1).symm
+
+/-- SSA discipline of the callee body relative to the names bound so far -/
+def wfCallee : List Simple → List Nat → Bool
+  | [], _ => true
+  | .bin x _ a b :: r, sc => !sc.contains x && a.vars.all sc.contains && b.vars.all sc.contains && wfCallee r (x :: sc)
+  | .print a :: r, sc => a.vars.all sc.contains && wfCallee r sc
+  | .brk _ :: _, _ => false
+
+theorem irw_cons_of_not_mem (cx : ICx) (x : Nat) (e : Operand) (a : Operand) (h : x ∉ a.vars) :
+    irw ((x, e) :: cx) a = irw cx a := by
+  cases a with
+  | lit n => rfl
+  | var y =>
+    have : y ≠ x := fun e' => h (by simp [Operand.vars, e'])
+    have hb : (y == x) = false := by simpa using this
+    simp [irw, List.lookup, hb]
+
+theorem inlineBody_preserves (mg : Nat → Nat) (S : List Nat) (hinj : ∀ x y, mg x = mg y → x = y)
+    (hfresh : ∀ x, mg x ∉ S)
+    (body : List Simple) (cx : ICx) (σ ρ' ρ : Nat → Int)
+    (hwf : wfCallee body (keys cx) = true) (h : IInv mg S cx σ ρ' ρ) :
+    (execSimple body σ).1 = (execSimple (inlineBody mg body cx).1 ρ').1 ∧
+    (match (execSimple body σ).2, (execSimple (inlineBody mg body cx).1 ρ').2 with
+     | .trap, .trap => True
+     | .next σ', .next ρ'' => IInv mg S (inlineBody mg body cx).2 σ' ρ'' ρ ∧
+         (∀ v, v ∈ keys cx → v ∈ keys (inlineBody mg body cx).2)
+     | _, _ => False) := by
+  induction body generalizing cx σ ρ' with
+  | nil => exact ⟨rfl, h, fun v hv => hv⟩
+  | cons st r ih =>
+    cases st with
+    | brk a => simp [wfCallee] at hwf
+    | print a =>
+      simp only [wfCallee, Bool.and_eq_true] at hwf
+      have ea := irw_eval h a (vars_all hwf.1)
+      have := ih cx σ ρ' hwf.2 h
+      simp only [inlineBody, execSimple, ea]
+      exact ⟨by rw [this.1], this.2⟩
+    | bin x op a b =>
+      simp only [wfCallee, Bool.and_eq_true, Bool.not_eq_true'] at hwf
+      obtain ⟨⟨⟨hx, ha⟩, hb⟩, hr⟩ := hwf
+      have hx : x ∉ keys cx := by simpa using hx
+      have ha := vars_all ha
+      have hb := vars_all hb
+      have hxa : x ∉ a.vars := fun e => hx (ha x e)
+      have hxb : x ∉ b.vars := fun e => hx (hb x e)
+      simp only [inlineBody, execSimple, irw_cons_of_not_mem _ _ _ _ hxa, irw_cons_of_not_mem _ _ _ _ hxb,
+        irw_eval h a ha, irw_eval h b hb]
+      cases hv : evalTarget op (a.eval σ) (b.eval σ) with
+      | none => exact ⟨rfl, trivial⟩
+      | some v =>
+        simp only
+        have hnew : IInv mg S ((x, .var (mg x)) :: cx) (update σ x v) (update ρ' (mg x) v) ρ := by
+          constructor
+          · intro n e hl
+            by_cases hn : n = x
+            · subst hn
+              simp only [List.lookup, beq_self_eq_true] at hl
+              injection hl with hl; subst hl
+              refine ⟨by simp [update, Operand.eval], ?_⟩
+              intro w hw
+              simp only [Operand.vars, List.mem_singleton] at hw
+              exact Or.inr ⟨n, by simp [keys], hw⟩
+            · have hbq : (n == x) = false := by simpa using hn
+              simp only [List.lookup, hbq] at hl
+              obtain ⟨h1, h2⟩ := h.rep n e hl
+              have hnot : mg x ∉ e.vars := by
+                intro hm
+                rcases h2 (mg x) hm with hs | ⟨y, hy, hmy⟩
+                · exact hfresh x hs
+                · exact hx (hinj x y hmy ▸ hy)
+              refine ⟨?_, ?_⟩
+              · simp only [update, hn, if_false]
+                rw [eval_update_of_not_mem _ _ _ _ hnot]; exact h1
+              · intro w hw
+                rcases h2 w hw with hs | ⟨y, hy, hwy⟩
+                · exact Or.inl hs
+                · exact Or.inr ⟨y, by simp [keys] at hy ⊢; exact Or.inr hy, hwy⟩
+          · intro w hw
+            have : w ≠ mg x := fun e => hfresh x (e ▸ hw)
+            simp only [update, this, if_false]
+            exact h.frame w hw
+        have := ih ((x, .var (mg x)) :: cx) (update σ x v) (update ρ' (mg x) v) (by simpa [keys] using hr) hnew
+        refine ⟨this.1, ?_⟩
+        revert this
+        cases (execSimple r (update σ x v)).2 <;>
+          cases (execSimple (inlineBody mg r ((x, .var (mg x)) :: cx)).1 (update ρ' (mg x) v)).2 <;>
+          simp only <;> intro this
+        all_goals first
+          | trivial
+          | exact this.2.elim
+          | exact ⟨this.2.1, fun w hw => this.2.2 w (by simp [keys] at hw ⊢; exact Or.inr hw)⟩
+
+theorem keys_inlineBody (mg : Nat → Nat) (body : List Simple) (cx : ICx) :
+    ∀ v, v ∈ keys (inlineBody mg body cx).2 ↔ v ∈ defsSimple body ∨ v ∈ keys cx := by
+  induction body generalizing cx with
+  | nil => intro v; simp [inlineBody, defsSimple]
+  | cons st r ih =>
+    intro v
+    cases st with
+    | print a => simp only [inlineBody, defsSimple]; exact ih cx v
+    | brk a => simp only [inlineBody, defsSimple]; exact ih cx v
+    | bin x op a b =>
+      simp only [inlineBody, defsSimple, List.mem_cons]
+      rw [ih]
+      simp only [keys, List.map_cons, List.mem_cons]
+      constructor
+      · rintro (h | h | h)
+        · exact Or.inl (Or.inr h)
+        · exact Or.inl (Or.inl h)
+        · exact Or.inr h
+      · rintro ((h | h) | h)
+        · exact Or.inr (Or.inl h)
+        · exact Or.inl h
+        · exact Or.inr (Or.inr h)
+
+theorem execSimple_append (p q : List Simple) (ρ : Nat → Int) :
+    execSimple (p ++ q) ρ =
+      match execSimple p ρ with
+      | (t, .next ρ') => (t ++ (execSimple q ρ').1, (execSimple q ρ').2)
+      | (t, other) => (t, other) := by
+  induction p generalizing ρ with
+  | nil => simp [execSimple]
+  | cons st r ih =>
+    cases st with
+    | brk a => simp [execSimple]
+    | print a =>
+      simp only [List.cons_append, execSimple, ih]
+      cases h : execSimple r ρ with
+      | mk t res => cases res <;> simp
+    | bin x op a b =>
+      simp only [List.cons_append, execSimple]
+      cases evalTarget op (a.eval ρ) (b.eval ρ) with
+      | none => simp
+      | some v => simp only; exact ih _
+
+theorem iinv_init (mg : Nat → Nat) (S : List Nat) (ps : List Nat) (args : List Operand) (ρ : Nat → Int)
+    (hargs : ∀ a, a ∈ args → ∀ v, v ∈ a.vars → v ∈ S) :
+    IInv mg S (ps.zip args) (bindParams ps (args.map (·.eval ρ))) ρ ρ := by
+  constructor
+  · induction ps generalizing args with
+    | nil => intro n e h; simp [List.lookup] at h
+    | cons p ps ih =>
+      cases args with
+      | nil => intro n e h; simp [List.lookup] at h
+      | cons a as =>
+        intro n e h
+        simp only [List.zip_cons_cons, List.lookup] at h
+        by_cases hn : n = p
+        · subst hn
+          simp only [beq_self_eq_true] at h
+          injection h with h; subst h
+          exact ⟨by simp [bindParams, update], fun v hv => Or.inl (hargs _ (by simp) v hv)⟩
+        · have hb : (n == p) = false := by simpa using hn
+          simp only [hb] at h
+          obtain ⟨h1, h2⟩ := ih as (fun a' ha' => hargs a' (List.mem_cons_of_mem _ ha')) n e h
+          refine ⟨by simp only [bindParams, List.map_cons, update, hn, if_false]; exact h1, ?_⟩
+          intro v hv
+          rcases h2 v hv with hs | ⟨y, hy, hvy⟩
+          · exact Or.inl hs
+          · exact Or.inr ⟨y, by simp [keys] at hy ⊢; exact Or.inr hy, hvy⟩
+  · intro v _; rfl
 
 end SamVerif.Opt
